@@ -18,11 +18,12 @@ def step (line : String) : String :=
     | _, _ => "bad-op"
   | ["RR2", na, nb, sched] => match na.toNat?, nb.toNat? with
     | some na, some nb =>
-      -- two balancers, each with its own counter: balancer 0 over members 0..na-1, balancer 1 over na..na+nb-1
-      let ka := (sched.toList.filter (· == '0')).length
-      let kb := (sched.toList.filter (· == '1')).length
-      let sa := (rrSeq 0 na ka).map toString
-      let sb := (rrSeq 0 nb kb).map (fun m => toString (na + m))
+      -- two balancers, each with its own counter (Lb.multiRr; balancers_independent): balancer 0 over members
+      -- 0..na-1, balancer 1 over na..na+nb-1
+      let sched := sched.toList.map (fun c => if c == '1' then 1 else 0)
+      let picks := multiRr (fun b => if b == 0 then na else nb) (fun _ => 0) sched
+      let sa := (picks.filter (·.1 == 0)).map (fun p => toString p.2)
+      let sb := (picks.filter (·.1 == 1)).map (fun p => toString (na + p.2))
       String.intercalate "," sa ++ " | " ++ String.intercalate "," sb
     | _, _ => "bad-op"
   | ["RRN", k] => match k.toNat? with
